@@ -7,6 +7,10 @@ Running state; the cut-off theorem is about `SyncLayer::synchronized_inputs`.
 -/
 import GgrsModel.Model.Inventory
 import GgrsModel.Proofs.Endpoint
+import GgrsModel.Model.P2P
+import GgrsModel.Proofs.Monad
+import GgrsModel.Proofs.Queue
+import GgrsModel.Proofs.DropWorld
 
 namespace Ggrs.Endpoint
 
@@ -72,3 +76,119 @@ theorem C07_cutoff (pred : Predictor) (cur : Frame) (cs : ConnStatus) (rest : Li
   simp [synchronizedInputsLoop, hd, hf]
 
 end Ggrs.SyncLayer
+
+namespace Ggrs.P2P
+
+/-- **C07/C10, an endpoint's players are dropped together (every state).** `disconnect_player_at_frame`
+for a remote player marks EVERY player behind its address as disconnected, moves no `last_frame`
+(in particular never lowers one), touches nobody else, leaves the sync layer alone, and schedules
+the re-simulation from `last_frame + 1` — or from an earlier frame already scheduled — exactly when
+the session has simulated past it. -/
+theorem C07_disconnect_marks_endpoint (s s' : P2P) (now handle addr : Nat) (lastFrame : Frame) (ep : Endpoint)
+    (hpt : s.playerType handle = some (.remote addr)) (hep : findEp s.remotes addr = some ep)
+    (h : s.disconnectPlayerAtFrame now handle lastFrame = .ok s') :
+    (∀ g, g ∈ ep.handles → g < s.localConnectStatus.length → (rget s'.localConnectStatus g).disconnected = true) ∧
+    (∀ g, (rget s'.localConnectStatus g).lastFrame = (rget s.localConnectStatus g).lastFrame) ∧
+    (∀ g, g ∉ ep.handles → rget s'.localConnectStatus g = rget s.localConnectStatus g) ∧
+    s'.sync = s.sync ∧
+    s'.disconnectFrame = (if s.sync.currentFrame > lastFrame + 1 then
+        (if s.disconnectFrame == NULL_FRAME then lastFrame + 1 else min s.disconnectFrame (lastFrame + 1))
+      else s.disconnectFrame) := by
+  obtain ⟨a, b, c, d, e, _⟩ := disconnectAt_fields s s' now handle addr lastFrame ep hpt hep h
+  exact ⟨a, b, c, d, e⟩
+
+end Ggrs.P2P
+
+namespace Ggrs
+
+/-- **C07, the survivor's timeline (non-sparse rollback sessions; drops detected locally).** Take any
+run of remote-input arrivals, `advance_frame` calls whose requests the game executes, accepted
+`disconnect_player` calls and Disconnected events of endpoints (what a timeout raises), in any
+order and number, from a state satisfying the invariant (a freshly built session does, below).
+For the next `advance_frame` call there are requests `reqs1` — its rollback-and-save phase, a
+prefix of what it returns — such that once the game has executed them, for EVERY player marked
+disconnected (whether long ago or since the previous call) and every simulated frame `f`:
+beyond the player's last frame the game's last simulation of `f` used the blank input with status
+Disconnected for it — including the frames that had been simulated with predictions — and up to
+the last frame it used the player's real input (a remote player's stream ends exactly at its last
+frame). If the call goes on to simulate a new frame, that frame too carries the blank input with
+status Disconnected for every such player, and the invariant holds again afterwards. -/
+theorem C07_survivor_timeline (x y : P2P × TLState) (h0 : XInv x) (hrun : XStar x y)
+    (now : Nat) (s' : P2P) (reqs' : List Request)
+    (hadv : y.1.advanceRollbackFrame now [] = .ok (s', reqs')) :
+    ∃ (gh : DGhost) (reqs1 : List Request),
+      (reqs' = reqs1 ∨ ∃ ins : List (Input × InputStatus), reqs' = reqs1 ++ [.advance ins] ∧
+        ins.length = y.1.sync.queues.length ∧
+        ∀ p, p < y.1.sync.queues.length → (rget y.1.localConnectStatus p).disconnected = true →
+          (rget y.1.localConnectStatus p).lastFrame < y.1.sync.currentFrame →
+          ins.getD p default = (0, .disconnected)) ∧
+      (∀ p, p < y.1.sync.queues.length → (rget y.1.localConnectStatus p).disconnected = true →
+        ∀ f : Nat, (f : Int) < y.1.sync.currentFrame →
+          ((rget y.1.localConnectStatus p).lastFrame < (f : Int) →
+            ((execReqs y.2 reqs1).R f).getD p default = (0, .disconnected)) ∧
+          ((f : Int) ≤ (rget y.1.localConnectStatus p).lastFrame → f < (gh.specs p).vals.length →
+            (((execReqs y.2 reqs1).R f).getD p default).1 = (gh.specs p).vals.getD f 0)) ∧
+      (∀ p, p < y.1.sync.queues.length → p ∉ y.1.localPlayerHandles →
+        ((gh.specs p).vals.length : Int) = (rget y.1.localConnectStatus p).lastFrame + 1) ∧
+      XInv (s', execReqs y.2 reqs') := by
+  obtain ⟨gh, st0, h⟩ := XInv_run x y h0 hrun
+  obtain ⟨s1, reqs1, gh1, _, gh', hset, hright, hinv', _, _, _, _, _, _, hcase⟩ :=
+    advanceRollbackFrame_specD y.1 s' gh y.2 [] reqs' now st0 h hadv
+  refine ⟨gh1, reqs1, ?_, ?_, ?_, ⟨gh', _, SessInvD_rebase s' gh' y.2 reqs' _ hinv'⟩⟩
+  · rcases hcase with ⟨hr, _⟩ | ⟨c, ins, hc, hr, hil, hok, _⟩
+    · exact Or.inl hr
+    · refine Or.inr ⟨ins, hr, hil, ?_⟩
+      intro p hp hd hlt
+      exact (hok p (by rw [hil]; exact hp)).1 ⟨hd, by rw [← hc]; exact hlt⟩
+  · intro p hp hd f hf
+    have hp1 : p < s1.sync.queues.length := by rw [hset.nq]; exact hp
+    refine ⟨fun hlf => hset.inv.deadRows p hp1 hd f hlf (by rw [hset.cur]; exact hf), fun hle hlen => ?_⟩
+    rw [← hset.inv.rows p hp1 f]
+    exact hright p hp1 f (by rw [hset.cur]; exact hf) hlen (fun _ => hle)
+  · intro p hp hnl
+    rw [hset.specs]
+    have := h.remote p hp hnl
+    rw [this.2.2, this.2.1]
+
+/-- **C07, the final timeline (non-sparse rollback sessions; drops detected locally).** After any
+run of arrivals, calls, accepted `disconnect_player` calls and Disconnected events, let the game
+execute the whole request list of one more `advance_frame` call. Then for every player that was
+marked disconnected when the call began and every frame `f` the game has simulated so far: if `f`
+lies beyond the player's last frame, the game's last simulation of `f` used the blank input with
+status Disconnected for it; and (remote players) if it does not, it used the player's real input
+of `f`. So the dropped player's part of the survivor's timeline is final and coherent at the end
+of the first call after the drop, and stays so after every later call. -/
+theorem C07_final_timeline (x y : P2P × TLState) (h0 : XInv x) (hrun : XStar x y)
+    (now : Nat) (s' : P2P) (reqs' : List Request)
+    (hadv : y.1.advanceRollbackFrame now [] = .ok (s', reqs')) :
+    ∃ gh' : DGhost, ∀ p, p < y.1.sync.queues.length → (rget y.1.localConnectStatus p).disconnected = true →
+      ∀ f : Nat, (f : Int) < s'.sync.currentFrame →
+        ((rget y.1.localConnectStatus p).lastFrame < (f : Int) →
+          ((execReqs y.2 reqs').R f).getD p default = (0, .disconnected)) ∧
+        (p ∉ y.1.localPlayerHandles → (f : Int) ≤ (rget y.1.localConnectStatus p).lastFrame →
+          (((execReqs y.2 reqs').R f).getD p default).1 = (gh'.specs p).vals.getD f 0 ∧
+          ((gh'.specs p).vals.length : Int) = (rget y.1.localConnectStatus p).lastFrame + 1) := by
+  obtain ⟨gh, st0, h⟩ := XInv_run x y h0 hrun
+  obtain ⟨_, _, _, _, gh', _, _, hinv', hh, _, hnq, _, hsame, _, _⟩ :=
+    advanceRollbackFrame_specD y.1 s' gh y.2 [] reqs' now st0 h hadv
+  refine ⟨gh', ?_⟩
+  intro p hp hd f hf
+  have hp' : p < s'.sync.queues.length := by rw [hnq]; exact hp
+  have hst := hsame p hd
+  have hd' : (rget s'.localConnectStatus p).disconnected = true := by rw [hst]; exact hd
+  have hlp : s'.localPlayerHandles = y.1.localPlayerHandles := by unfold P2P.localPlayerHandles; rw [hh]
+  refine ⟨fun hlf => hinv'.tinv.deadRows p hp' hd' f (by rw [hst]; exact hlf) hf, fun hnl hle => ⟨?_, ?_⟩⟩
+  · exact deadColumn_right s' gh' y.2 reqs' _ hinv' p hp' hd' (by rw [hlp]; exact hnl) f hf (by rw [hst]; exact hle)
+  · have := hinv'.remote p hp' (by rw [hlp]; exact hnl)
+    rw [this.2.2, this.2.1, hst]
+
+/-- The premises of `C07_survivor_timeline` are satisfiable: a freshly built non-sparse session
+(all queues new, every status blank, frame 0, no disconnect pending) satisfies `XInv` against any
+game timeline at frame 0. -/
+example (s : P2P) (R : Nat → List (Input × InputStatus)) (n : Nat)
+    (hq : s.sync.queues = List.replicate n InputQueue.new) (hst : s.localConnectStatus = List.replicate n {})
+    (hc : s.sync.currentFrame = 0) (hns : s.sparse = false) (hdf : s.disconnectFrame = NULL_FRAME) :
+    XInv (s, ⟨0, R⟩) :=
+  ⟨_, _, SessInvD_of_SessInv s _ ⟨0, R⟩ [] (SessInv_init s R n hq hst hc) hns hdf⟩
+
+end Ggrs
